@@ -36,7 +36,7 @@ func init() {
 		},
 		MinDistinct: map[string]int{"quick": 800, "thorough": 60000},
 		MinCounters: map[string]map[string]int64{
-			"quick":    {"walks_judged": 300, "enable_calls_judged": 400, "global_deliveries_compared": 800, "withheld_states_observed": 100, "linearizable_histories": 40, "ez_episodes_judged": 60, "ez_installs_observed": 40, "ez_callback_goroutine_exits_observed": 60},
+			"quick":    {"walks_judged": 300, "enable_calls_judged": 400, "global_deliveries_compared": 800, "withheld_states_observed": 100, "linearizable_histories": 40, "ez_episodes_judged": 60, "ez_installs_observed": 40, "ez_callback_goroutine_exits_observed": 60, "enable_calls_abandoned_inside_verify": 30},
 			"thorough": {"walks_judged": 200000, "enable_calls_judged": 300000, "ez_episodes_judged": 10000, "ez_installs_observed": 5000},
 		},
 		Plan: func(tier string) fw.Plan {
@@ -71,6 +71,8 @@ func runC09(w *fw.Worker) {
 			c09NoVerifyMethod(w, i, r, g/11)
 		case g%13 == 5:
 			c09AfterMonitorExit(w, i, r)
+		case g%19 == 7:
+			c09AbandonedEnable(w, i, r)
 		default:
 			c09Walk(w, i, r, g)
 		}
@@ -1060,4 +1062,86 @@ func c09Ez(w *fw.Worker, i int, r *fw.Rand) {
 	}
 	w.Count("ez_episodes_judged", 1)
 	w.Distinct(fmt.Sprintf("ez|%s|%s|%v|%v|%s|%v|%v", mode, format, byExt, watch, pathFrom, rec.pathAlwaysSet, rewritten))
+}
+
+// c09AbandonedEnable: the delay is in force and the installed config fails Verify; an EnableVerification call is given
+// up by its caller while the monitor is inside Verify for it (that attempt fails: the delay stays in force). Then the
+// last source reports a valid value (installed unverified, the delay still being in force) and EnableVerification is
+// called again: it must be answered for itself - success, the installed (valid) config, verification on from then on:
+// the next invalid report is refused. The answer to the abandoned call belongs to nobody.
+func c09AbandonedEnable(w *fw.Worker, i int, r *fw.Rand) {
+	o := conc.Opts{Delay: true, Suppress: r.Bool(), NSrc: r.Range(1, 3)}
+	last := o.NSrc - 1
+	e, err := conc.StartWith(context.Background(), r.U64(), o, func(e *conc.Env, k int) *conc.Layer {
+		l := e.NewLayer()
+		if k == last {
+			l.Set[0], l.NegA = true, true // fails Verify whatever the others hold
+		}
+		return l
+	}, nil)
+	desc := map[string]any{"mode": "enable-abandoned-inside-verify-then-called-again", "opts": fmt.Sprintf("%+v", o)}
+	w.BeginDesc(i, fmt.Sprintf("%v", desc))
+	if err != nil {
+		w.Violation(i, "config-failed-with-verification-delayed", err.Error(), desc)
+		return
+	}
+	defer e.Stop()
+	ctx := e.S.Ctx
+	abandoned, _ := e.AbandonFnInVerify(func(c context.Context) error {
+		_, _, eerr := e.D.EnableVerification(c)
+		return eerr
+	})
+	if !abandoned {
+		w.Count("enable_not_abandoned_inside_verify", 1)
+		return
+	}
+	w.Count("enable_calls_abandoned_inside_verify", 1)
+	good := e.RandLayer(r, 0, 0)
+	if res, _ := e.Report(ctx, 0, last, good, true); res != conc.ResNil {
+		w.Violation(i, "valid-report-refused-while-the-delay-is-in-force", fmt.Sprintf("after a failed (abandoned) EnableVerification a valid report of the last source returned res=%d", res), desc)
+		return
+	}
+	ectx, ecancel := context.WithTimeout(ctx, 20*time.Second) // watchdog only
+	cfg, _, eerr := e.D.EnableVerification(ectx)
+	if eerr == nil {
+		// ... and so must every other caller be, wherever it runs: a burst of calls from many goroutines (whatever the
+		// library keeps per call - reply channels, requests - may be recycled per processor)
+		var wg sync.WaitGroup
+		errs := make([]error, 32)
+		for g := range errs {
+			wg.Add(1)
+			go func(g int) {
+				defer wg.Done()
+				_, _, errs[g] = e.D.EnableVerification(ectx)
+			}(g)
+		}
+		wg.Wait()
+		for _, be := range errs {
+			if be != nil {
+				eerr = be
+			}
+		}
+		w.Count("enable_calls_in_bursts_after_an_abandoned_call", int64(len(errs)))
+	}
+	timedOut := ectx.Err() != nil
+	ecancel()
+	if timedOut && eerr != nil {
+		w.Inconclusive(i, "second EnableVerification took more than 20s")
+		return
+	}
+	if eerr != nil {
+		w.Violation(i, "enable-failed-on-valid-config:after-an-abandoned-call", fmt.Sprintf("the installed config %+v passes Verify, yet EnableVerification (called after an earlier call had been abandoned inside Verify) returned: %v", conc.FPOf(e.D.View()), eerr), desc)
+		return
+	}
+	if cfg != e.D.View() || !conc.Valid(cfg) {
+		w.Violation(i, "enable-returned-other-config:after-an-abandoned-call", fmt.Sprintf("returned %+v, view %+v", conc.FPOf(cfg), conc.FPOf(e.D.View())), desc)
+		return
+	}
+	bad := e.NewLayer()
+	bad.Set[0], bad.NegA = true, true
+	if res, _ := e.Report(ctx, 0, last, bad, true); res != conc.ResRejected {
+		w.Violation(i, "invalid-report-not-refused-after-verification-was-enabled", fmt.Sprintf("res=%d", res), desc)
+		return
+	}
+	w.Distinct(fmt.Sprintf("abandoned-enable|%d|%v", o.NSrc, o.Suppress))
 }
